@@ -16,6 +16,7 @@ import (
 	"github.com/gopher-fleece/gleece/v2/gast"
 	"github.com/gopher-fleece/gleece/v2/graphs"
 	"github.com/gopher-fleece/gleece/v2/graphs/dot"
+	"github.com/gopher-fleece/gleece/v2/infrastructure/verifhook"
 )
 
 type SymbolGraph struct {
@@ -412,6 +413,7 @@ func (g *SymbolGraph) FindByKind(kinds ...common.SymKind) []*SymbolNode {
 		}
 	}
 
+	results = verifhook.Permute("nodes", results, func(n *SymbolNode) string { return n.Id.BaseId() })
 	return results
 }
 
@@ -732,6 +734,7 @@ func (g *SymbolGraph) RemoveNode(key graphs.SymbolKey) {
 			dependents = append(dependents, fromKey)
 		}
 	}
+	dependents = verifhook.Permute("dependents", dependents, func(k graphs.SymbolKey) string { return k.Id() })
 
 	// For each dependent, remove the edge(s) from dependent -> key.
 	// If the dependent becomes orphaned (no outgoing deps to existing nodes), evict it.
